@@ -355,6 +355,40 @@ func boundedInduction(idx ssa.Value, at *ssa.BasicBlock) (bound ssa.Value, n int
 	return cmp.Y, n, true
 }
 
+// indexOfResult: idx is the result of bytes.Index* / strings.Index* applied to x, used where a
+// dominating guard has established idx >= 0: such a result is below len(x).
+func indexOfResult(idx, x ssa.Value, at *ssa.BasicBlock) bool {
+	c, ok := idx.(*ssa.Call)
+	if !ok {
+		return false
+	}
+	f := c.Call.StaticCallee()
+	if f == nil || f.Pkg == nil || (f.Pkg.Pkg.Path() != "bytes" && f.Pkg.Pkg.Path() != "strings") || !strings.HasPrefix(f.Name(), "Index") || len(c.Call.Args) == 0 || !sameSlice(c.Call.Args[0], x) {
+		return false
+	}
+	for _, g := range branchGuards(at) {
+		bo, ok := g.cond.(*ssa.BinOp)
+		if !ok {
+			continue
+		}
+		op, l, r := bo.Op, bo.X, bo.Y
+		if !g.val {
+			op = negTok(op)
+		}
+		if k, isK := constInt(r); isK && l == idx {
+			if (op == token.GEQ && k >= 0) || (op == token.GTR && k >= -1) || (op == token.NEQ && k == -1) {
+				return true
+			}
+		}
+		if k, isK := constInt(l); isK && r == idx {
+			if (op == token.LEQ && k >= 0) || (op == token.LSS && k >= -1) {
+				return true
+			}
+		}
+	}
+	return false
+}
+
 // groupSlice: v is x[K*n : K*n+K] where n is the counter of a loop `for n := 0; n < len(x)/K; n++`
 // (the n-th group of K elements). Such a slice is in range and has length K.
 func groupSlice(v *ssa.Slice, at *ssa.BasicBlock) (int64, bool) {
@@ -570,6 +604,9 @@ func (lc *lenChecker) checkIndices(r *Report, fn *ssa.Function) int {
 				if bound == nil {
 					continue
 				}
+				if indexOfResult(bound, v.X, b) {
+					continue // a non-negative Index* result of the same slice is below its length
+				}
 				c, isC := constInt(bound)
 				if !isC || m < 0 || c > m {
 					ok = false
@@ -630,6 +667,10 @@ func (lc *lenChecker) checkIndices(r *Report, fn *ssa.Function) int {
 					return
 				}
 			}
+		}
+		if !ok && indexOfResult(idx, x, b) {
+			r.check("L1", key, pos, true, "index is the non-negative result of an Index* search in the same slice (always below its length)")
+			return
 		}
 		switch {
 		case ok && off >= 0 && off < stride && stride == 1:
